@@ -97,6 +97,12 @@ def gen_case(r, tier, force=None):
         e = r.range(0, 30)
         prov = r.range(10 ** e, 10 ** (e + 1)) * P // r.choice([1, 3, 7, 10, 1000]) + r.range(0, P - 1)
     prov = max(0, min(prov, 10 ** 30 * P))
+    if r.chance(1, 10):
+        # ties of the 18-decimal rounding in NextEpochProvisions: factor 1/2 (or 1/10) and a raw provision ending in an odd digit (or 5)
+        if r.chance(2, 3):
+            factor, prov = P // 2, (prov | 1)
+        else:
+            factor, prov = P // 10, prov - prov % 10 + 5
     ncalls = r.range(1, 40 if tier != "tiny" else 6)
     last = 0 if r.chance(4, 5) else r.range(0, 6)
     hist = r.below(10)
@@ -149,6 +155,12 @@ WITNESS = {"props": [str(4 * P // 10), str(3 * P // 10), str(2 * P // 10), str(P
            "recv": [{"a": 0, "w": "333333333333333333"}, {"a": 1, "w": "333333333333333333"}, {"a": 2, "w": "333333333333333334"}],
            "prov": str(10000037 * P // 10), "last": 0, "vest": str(225 * 10 ** 12), "na": 3, "distr": [],
            "calls": [{"e": e, "id": 0} for e in range(1, 5)]}
+
+
+# the witness of C18/Liveness.v f9_witness (finding F9): three pool-incentives records 535/2/3, provisions 10^19
+WITNESS_F9 = {"props": ["120000000000000000", "480000000000000000", "110000000000000000", "290000000000000000"], "factor": "900000000000000000",
+              "period": 4, "start": 2, "recv": [], "prov": str(10 ** 19 * P), "last": 0, "vest": "4070000000000000000000000200350", "na": 1,
+              "distr": [{"g": 1, "w": "535"}, {"g": 2, "w": "2"}, {"g": 4, "w": "3"}], "calls": [{"e": 2, "id": 0}, {"e": 3, "id": 0}]}
 
 
 # ---------------------------------------------------------------------------------------------
@@ -277,7 +289,8 @@ def oracle(c, init, steps):
             excusable = prev.vest < dev_try + (1 if due else 0) or has_blocked
             if not unchanged:
                 bad("failed_call_changed_state", "%s failed (status %d) but the state changed" % (tag, status))
-            if not excusable and status == 2 and over_allocates(c["distr"], prev.pool + fl(minted_try * pp)):
+            cands = [minted_try] + ([fl(prov_exp + ulp), fl(max(prov_exp - ulp, 0))] if due else [])
+            if not excusable and status == 2 and any(over_allocates(c["distr"], prev.pool + fl(m_ * pp)) for m_ in cands):
                 v.append({"what": "%s panicked: the pool-incentives hook allocates more than the %d it holds (record weights %s rounded to 18 decimals sum to more than 1); nothing was minted"
                                   % (tag, prev.pool + fl(minted_try * pp), [d_["w"] for d_ in c["distr"]]), "rec": dict(F9_REC)})
             elif not excusable:
@@ -478,7 +491,7 @@ def correspond(tier, seed, model_ok):
     n = 300 if tier == "quick" else 8000
     cases = [gen_case(r.fork(i), tier) for i in range(n)]
     corpus = common.load_corpus(PROP)
-    good = run_cases([WITNESS] + corpus + cases, model_ok, out, "q")
+    good = run_cases([WITNESS, WITNESS_F9] + corpus + cases, model_ok, out, "q")
     if model_ok and not out.mismatches:
         selftest(good, out)
     out.rule = ("cases = (4 proportions on the 10^-18 grid summing to 1, 0-8 weighted receivers incl. empty / repeated / blocked addresses, factor in [0,1], "
